@@ -283,6 +283,17 @@ fn build_case(
 			accounts[i].2.push("no-such-hook".into());
 			"account-hook"
 		}
+		7 => {
+			// two names that differ only by a character that is replaced when file names are built: same id, same files
+			let i = pick % cs.len();
+			let mut c = cs[i].clone();
+			c.file = (c.file + 1) % nf;
+			let special = ['/', ':', '*'][pick % 3];
+			cs[i].name = format!("web{special}site{i}");
+			c.name = format!("web_site{i}");
+			cs.push(c);
+			"duplicate-certificate-after-sanitisation"
+		}
 		_ => "none",
 	};
 	Case { files: fs, endpoints: eps, rate_limits, hooks, groups, accounts, certs: cs, injected: injected.to_string() }
@@ -384,7 +395,8 @@ pub fn resolve(case: &Case) -> Resolved {
 				error.get_or_insert(format!("certificate {}: {e}", c.name));
 			}
 		}
-		let id = format!("{}_{}", c.name, c.key_type.clone().unwrap_or_else(|| "rsa2048".into()));
+		// the id is built from the name as it appears in file names: '*', ':' and '/' become '_'
+		let id = format!("{}_{}", c.name.replace(['*', ':', '/'], "_"), c.key_type.clone().unwrap_or_else(|| "rsa2048".into()));
 		if !ids.insert(id.clone()) {
 			error.get_or_insert(format!("duplicate certificate id {id}"));
 		}
@@ -526,7 +538,7 @@ fn write_tree(case: &Case, root: &str) -> String {
 				o.insert("endpoint".into(), json!(c.endpoint));
 				o.insert("account".into(), json!(c.account));
 				o.insert("hooks".into(), json!(c.hooks));
-				o.insert("identifiers".into(), json!([{"dns": format!("{}.c14.test", c.name), "challenge": "http-01"}]));
+				o.insert("identifiers".into(), json!([{"dns": format!("{}.c14.test", c.name.replace(['*', ':', '/', '_'], "-")), "challenge": "http-01"}]));
 				if let Some(k) = &c.key_type {
 					o.insert("key_type".into(), json!(k));
 				}
@@ -602,7 +614,8 @@ pub fn exec(case: &Case) -> Outcome {
 	let (def_acc, def_crt, _) = build::default_dirs();
 	let mut multi_level = false;
 	for c in case.certs.iter().filter(|c| reach.contains(&c.file)) {
-		let id = format!("{}_{}", c.name, c.key_type.clone().unwrap_or_else(|| "rsa2048".into()));
+		// the id is built from the name as it appears in file names: '*', ':' and '/' become '_'
+		let id = format!("{}_{}", c.name.replace(['*', ':', '/'], "_"), c.key_type.clone().unwrap_or_else(|| "rsa2048".into()));
 		let got = &reply["certificates"][&id];
 		if got.is_null() {
 			return keep(Outcome::fail("C14:certificate-lost", format!("certificate {id} of a file that is read is not loaded; {d}")));
@@ -689,7 +702,7 @@ pub fn exec(case: &Case) -> Outcome {
 		}
 	}
 	// nothing from unread files, everything from read ones
-	let want_ids: BTreeSet<String> = case.certs.iter().filter(|c| reach.contains(&c.file)).map(|c| format!("{}_{}", c.name, c.key_type.clone().unwrap_or_else(|| "rsa2048".into()))).collect();
+	let want_ids: BTreeSet<String> = case.certs.iter().filter(|c| reach.contains(&c.file)).map(|c| format!("{}_{}", c.name.replace(['*', ':', '/'], "_"), c.key_type.clone().unwrap_or_else(|| "rsa2048".into()))).collect();
 	let got_ids: BTreeSet<String> = reply["certificates"].as_object().map(|o| o.keys().cloned().collect()).unwrap_or_default();
 	if want_ids != got_ids {
 		return keep(Outcome::fail("C14:certificate-set", format!("loaded certificates {got_ids:?}, expected {want_ids:?}; {d}")));
@@ -718,7 +731,7 @@ pub fn exec(case: &Case) -> Outcome {
 }
 
 pub fn run(ctx: &Ctx, rep: &mut Report) {
-	rep.rule = "configuration trees: main file + 0..6 files in 3 directories, include entries by relative or absolute path, `dir/*.toml` globs, patterns matching nothing, repeated and cyclic includes, one file in six reached through a symbolic link from another directory (its relative includes are relative to the real file); every one of the 15 global options present/absent per file ([global] split over several files; the table-valued option env in at most one file); renew_delay, random_early_renew, file_name_format present/absent at certificate, endpoint and global level with distinct values; directory at certificate/global; 1..2 endpoints, 2 accounts, 3 hooks, 2 (nested) groups, 3 rate limits, 1..3 certificates placed in random files (possibly unread ones); with probability 7/16 one injected defect: dangling endpoint / account / hook / group member / rate limit / account hook, duplicate certificate id. Executed by MainEventLoop::new in the probe (one process per case). Oracle: independent resolver over the generator's structure: load succeeds iff nothing a read certificate or account depends on is unresolved and no id is duplicated; dump == most specific level else built-in default; each file read once (pre-order), later [global] definitions override earlier ones option by option; hooks expanded in declaration order; root certificates = command line + endpoint + global. Non-trivial = >= 2 read files define [global] or a setting is given at >= 2 levels.".into();
+	rep.rule = "configuration trees: main file + 0..6 files in 3 directories, include entries by relative or absolute path, `dir/*.toml` globs, patterns matching nothing, repeated and cyclic includes, one file in six reached through a symbolic link from another directory (its relative includes are relative to the real file); every one of the 15 global options present/absent per file ([global] split over several files; the table-valued option env in at most one file); renew_delay, random_early_renew, file_name_format present/absent at certificate, endpoint and global level with distinct values; directory at certificate/global; 1..2 endpoints, 2 accounts, 3 hooks, 2 (nested) groups, 3 rate limits, 1..3 certificates placed in random files (possibly unread ones); with probability 8/16 one injected defect: dangling endpoint / account / hook / group member / rate limit / account hook, duplicate certificate id (literally, or after the replacement of * : / by _ that file names undergo). Executed by MainEventLoop::new in the probe (one process per case). Oracle: independent resolver over the generator's structure: load succeeds iff nothing a read certificate or account depends on is unresolved and no id is duplicated; dump == most specific level else built-in default; each file read once (pre-order), later [global] definitions override earlier ones option by option; hooks expanded in declaration order; root certificates = command line + endpoint + global. Non-trivial = >= 2 read files define [global] or a setting is given at >= 2 levels.".into();
 	rep.assume("built-in defaults are the compile-time values of the build made by the harness (VARLIBDIR under /verif/.sys)");
 	run_replays::<Case>(ctx, rep, "tree", &exec);
 	if ctx.replay.is_some() {
